@@ -15,6 +15,7 @@ package py
 import (
 	"bytes"
 	"fmt"
+	"math/big"
 	"strconv"
 	"strings"
 	"unicode"
@@ -125,7 +126,6 @@ func fieldsN(s string, n int) []string {
 
 func init() {
 	StringType.Dict["endswith"] = MustNewMethod("endswith", func(self Object, args Tuple) (Object, error) {
-		selfStr := string(self.(String))
 		suffix := []string{}
 		if len(args) > 0 {
 			if s, ok := args[0].(String); ok {
@@ -141,6 +141,10 @@ func init() {
 			}
 		} else {
 			return nil, ExceptionNewf(TypeError, "endswith() takes at least 1 argument (0 given)")
+		}
+		selfStr, ok := self.(String).window(args[1:])
+		if !ok {
+			return Bool(false), nil
 		}
 		for _, s := range suffix {
 			if strings.HasSuffix(selfStr, s) {
@@ -184,7 +188,6 @@ replaced.`)
 	}, 0, "split(sub) -> split string with sub.")
 
 	StringType.Dict["startswith"] = MustNewMethod("startswith", func(self Object, args Tuple) (Object, error) {
-		selfStr := string(self.(String))
 		prefix := []string{}
 		if len(args) > 0 {
 			if s, ok := args[0].(String); ok {
@@ -201,23 +204,9 @@ replaced.`)
 		} else {
 			return nil, ExceptionNewf(TypeError, "startswith() takes at least 1 argument (0 given)")
 		}
-		if len(args) > 1 {
-			if s, ok := args[1].(Int); ok {
-				// start is interpreted as in slice notation
-				str := self.(String)
-				size := str.len()
-				beg := int(s)
-				if beg < 0 {
-					beg += size
-					if beg < 0 {
-						beg = 0
-					}
-				}
-				if beg > size {
-					return Bool(false), nil
-				}
-				selfStr = string(str.slice(beg, size, size))
-			}
+		selfStr, ok := self.(String).window(args[1:])
+		if !ok {
+			return Bool(false), nil
 		}
 
 		for _, s := range prefix {
@@ -634,6 +623,53 @@ func (s String) M__contains__(item Object) (Object, error) {
 	return NewBool(strings.Contains(string(s), string(needle))), nil
 }
 
+// window returns s[start:end] for the optional [start[, end]]
+// arguments of startswith and endswith, interpreted as in slice
+// notation; ok is false when no string, not even the empty one, can
+// be matched there (start beyond the end of s, or end before start)
+func (s String) window(args Tuple) (w string, ok bool) {
+	size := s.len()
+	beg, end := 0, size
+	if len(args) > 0 {
+		if i, isInt := args[0].(Int); isInt {
+			beg = int(i)
+		} else if args[0] != None {
+			if b, isBig := args[0].(*BigInt); isBig {
+				if (*big.Int)(b).Sign() < 0 {
+					beg = 0
+				} else {
+					beg = size + 1
+				}
+			}
+		}
+	}
+	if len(args) > 1 {
+		if i, isInt := args[1].(Int); isInt {
+			end = int(i)
+		} else if b, isBig := args[1].(*BigInt); isBig && (*big.Int)(b).Sign() < 0 {
+			end = 0
+		}
+	}
+	if end > size {
+		end = size
+	} else if end < 0 {
+		end += size
+		if end < 0 {
+			end = 0
+		}
+	}
+	if beg < 0 {
+		beg += size
+		if beg < 0 {
+			beg = 0
+		}
+	}
+	if beg > size || end < beg {
+		return "", false
+	}
+	return string(s.slice(beg, end, size)), true
+}
+
 func (s String) Count(args Tuple) (Object, error) {
 	var (
 		pysub Object
@@ -666,7 +702,7 @@ func (s String) Count(args Tuple) (Object, error) {
 			beg = 0
 		}
 	}
-	if beg > size {
+	if beg > size || beg > end {
 		return Int(0), nil
 	}
 
